@@ -169,17 +169,28 @@ def write_replay(prop, obj, index):
     return path
 
 
-def run_property(prop, tier='quick', seed=0, out=sys.stdout, replay=None,
-                 write=True, selftest=None):
-    """Run the rules of one property.  Returns the process exit code."""
-    start = time.time()
+class Result(object):
+    def __init__(self):
+        self.code = 0
+        self.error = None
+        self.ctx = None
+        self.mod = None
+        self.violations = []
+        self.known_hit = []
+
+
+def analyse(prop, tier='quick', index=None):
+    """Run the rules of one property on an index; no output, no files."""
+    res = Result()
     try:
         mod = importlib.import_module('sa.rules.%s' % prop.lower())
     except ImportError as err:
-        out.write('ANALYSIS-ERROR property=%s no rule module: %s\n' %
-                  (prop, err))
-        return 2
-    ctx = Ctx(prop, tier)
+        res.code = 2
+        res.error = 'no rule module: %s' % err
+        return res
+    res.mod = mod
+    ctx = Ctx(prop, tier, index)
+    res.ctx = ctx
     try:
         if tier == 'thorough':
             ctx.index.load_all()
@@ -198,24 +209,42 @@ def run_property(prop, tier='quick', seed=0, out=sys.stdout, replay=None,
                     'rule %s generated %d obligations, needs >= %d' %
                     (rule, have, need))
     except AnalysisError as err:
-        out.write('ANALYSIS-ERROR property=%s %s\n' % (prop, err))
-        return 2
+        res.code = 2
+        res.error = str(err)
+        return res
+    except RecursionError:
+        res.code = 2
+        res.error = 'internal error: recursion limit'
+        return res
     except Exception:  # pylint: disable=broad-except
-        out.write('ANALYSIS-ERROR property=%s internal error\n' % prop)
-        out.write(traceback.format_exc())
-        return 2
-
+        res.code = 2
+        res.error = 'internal error\n' + traceback.format_exc()
+        return res
     known = known_keys(prop)
-    violations = []
-    known_hit = []
     for obj in ctx.obs:
         if obj.ok:
             continue
         ent = known.get(obj.key())
         if ent is not None:
-            known_hit.append((obj, ent))
+            res.known_hit.append((obj, ent))
         else:
-            violations.append(obj)
+            res.violations.append(obj)
+    res.code = 1 if res.violations else 0
+    return res
+
+
+def run_property(prop, tier='quick', seed=0, out=sys.stdout, replay=None,
+                 write=True, selftest=None):
+    """Run the rules of one property.  Returns the process exit code."""
+    start = time.time()
+    res = analyse(prop, tier)
+    if res.code == 2:
+        out.write('ANALYSIS-ERROR property=%s %s\n' % (prop, res.error))
+        return 2
+    ctx = res.ctx
+    mod = res.mod
+    violations = res.violations
+    known_hit = res.known_hit
 
     if replay:
         try:
